@@ -52,5 +52,11 @@ QuadsFails(ev) ==
        \cup CF("C04.quadruplets_decision", \A i \in 1..n :
                   Approx(ev.dec[i], CD!QuadDecision(ev.dab[i], ev.dcd[i]), 3, 3, Max(ev.dab[i], ev.dcd[i])))
        \cup CF("C04.quadruplets_swap_negates", \A i \in 1..n : ev.dec_sw[i] = Neg(ev.dec[i]))
-QuadsEx == {"C04.quadruplets_predict", "C04.quadruplets_decision", "C04.quadruplets_swap_negates"}
+       \* beyond the listed properties (G = growth of the specification): the quadruplets score is the mean of the
+       \* predictions rescaled to [0,1], i.e. (#(+1) + #(0)/2) / n - a tie counts half
+       \cup CF("G04.quadruplets_score_counts_ties_half",
+               IsFin(ev.score) /\ Approx(Mul(ev.score, FromInt(2 * n)),
+                                         FromInt(2 * CD!NumPlus(ev.pred) + Len(SelectSeq(ev.pred, LAMBDA v : v = 0))), 2, 2, One))
+QuadsEx == {"C04.quadruplets_predict", "C04.quadruplets_decision", "C04.quadruplets_swap_negates",
+            "G04.quadruplets_score_counts_ties_half"}
 =============================================================================
